@@ -106,12 +106,12 @@ func execWith(c *L1Case, side *l1Side, i int, o L1Op, do func(L1Op) ExecResult) 
 	}
 	st := reentries[e]
 	if side.reenter[i] && st != nil {
-		st.armed, st.msg, st.escrow, st.verdict = true, finalizeMsgOf(o), ophosttypes.BridgeAddress(o.Bridge), "not-reached"
+		st.armed, st.msg, st.escrow, st.verdict = true, finalizeMsgOf(o), escrowAddr(o.Bridge), "not-reached"
 	}
 	nd, hasDep := side.reenterDep[i]
 	if hasDep && st != nil {
 		from, _ := e.AK.AddressCodec().StringToBytes(o.Sender)
-		st.depArmed, st.depFrom, st.depTo, st.depRes = true, from, ophosttypes.BridgeAddress(o.Bridge), nestedDeposit{Op: nd}
+		st.depArmed, st.depFrom, st.depTo, st.depRes = true, from, escrowAddr(o.Bridge), nestedDeposit{Op: nd}
 		st.depMsg = &ophosttypes.MsgInitiateTokenDeposit{Sender: nd.Sender, BridgeId: nd.Bridge, To: nd.To, Amount: coinOf(nd.Denom, nd.Amt), Data: nd.Data}
 	}
 	r := do(o)
@@ -625,11 +625,12 @@ func runMoneyStream(cfg MoneyStream, seed uint64, tier string, outdir string) *R
 			}
 		}
 		nviol := len(rep.Violations)
-		for _, m := range cfg.Monitors {
+		mons := append(append([]L1Monitor{}, cfg.Monitors...), queryDiffMonitor)
+		for _, m := range mons {
 			m(rep, c)
 		}
 		if len(rep.Violations) > nviol {
-			shrinkL1Violations(rep, c, seed*100000+uint64(id), id, cfg.Prep, cfg.Monitors, nviol, 1, shrunk)
+			shrinkL1Violations(rep, c, seed*100000+uint64(id), id, cfg.Prep, mons, nviol, 1, shrunk)
 		}
 		rep.Ops += len(c.Ops)
 		rep.CountCase(strings.Join(l1OpsHuman(c.Ops), "\n"), len(okKinds) >= 2 && len(errKinds) >= 1 && okKinds[cfg.mainKind()] && errKinds[cfg.mainKind()])
@@ -879,6 +880,7 @@ var shrunkByReport = map[*Report]map[string]bool{}
 
 func runL1Monitors(rep *Report, c *L1Case, caseSeed uint64, mons []L1Monitor) {
 	n := len(rep.Violations)
+	mons = append(append([]L1Monitor{}, mons...), queryDiffMonitor)
 	for _, m := range mons {
 		m(rep, c)
 	}
@@ -897,4 +899,15 @@ func isShrunk(v Violation) bool {
 	}
 	_, has := m["shrunk_from"]
 	return has
+}
+
+// queryDiffMonitor: every gRPC query the observation uses (and Bridge / Bridges / TokenPairByL1Denom /
+// TokenPairByL2Denom / OutputProposal for the tracked ids) must answer what the keeper reads and the
+// documented derivations give; L1Obs records the differences per observation
+func queryDiffMonitor(rep *Report, c *L1Case) {
+	for _, d := range c.Env.QueryDiffs {
+		if d.Obs < len(c.Ops) {
+			l1Violate(rep, c, d.Obs, rep.Property+":query-differs-from-state", d.What)
+		}
+	}
 }
